@@ -1011,15 +1011,32 @@ func (c *Ctx) boundedFor(h *ssa.BasicBlock, body map[*ssa.BasicBlock]bool) (bool
 			continue
 		}
 		// bound defined outside the loop
-		if bi, ok := bound.(ssa.Instruction); ok && bi.Block() != nil && body[bi.Block()] {
-			call, isCall := bound.(*ssa.Call)
-			if !isCall {
-				continue
+		// (or re-computed in the loop from loop-invariant operands: `i <= last+1`)
+		var invariant func(v ssa.Value, depth int) bool
+		invariant = func(v ssa.Value, depth int) bool {
+			bi, ok := v.(ssa.Instruction)
+			if !ok || bi.Block() == nil || !body[bi.Block()] {
+				return true
 			}
-			cn := P.calleeName(call.Common())
-			if !strings.HasSuffix(cn, ".Len") && !strings.HasSuffix(cn, ".NumMethods") && cn != "builtin len" {
-				continue
+			if depth > 4 {
+				return false
 			}
+			switch x := v.(type) {
+			case *ssa.Call:
+				cn := P.calleeName(x.Common())
+				return strings.HasSuffix(cn, ".Len") || strings.HasSuffix(cn, ".NumMethods") || cn == "builtin len"
+			case *ssa.BinOp:
+				switch x.Op {
+				case token.ADD, token.SUB, token.MUL:
+					return invariant(x.X, depth+1) && invariant(x.Y, depth+1)
+				}
+			case *ssa.Convert:
+				return invariant(x.X, depth+1)
+			}
+			return false
+		}
+		if !invariant(bound, 0) {
+			continue
 		}
 		// every in-loop edge of the phi is phi + positive constant
 		inc := true
